@@ -12,8 +12,43 @@ def mc(ctx, conns, maxpkts, emit):
     cfg = "MCL.cfg"
     with open(os.path.join(ctx.specdir(), cfg), "w") as f:
         f.write("SPECIFICATION Spec\nCONSTANTS\n  Conns = %s\n  MaxPkts = %d\n  Defects = {}\n  Record = TRUE\nVIEW View\nACTION_CONSTRAINT Emit\n"
-                "INVARIANTS ServeReturnsLast DeadlineArmed GaugesSane AtRestWhenReturned\nCHECK_DEADLOCK FALSE\n" % (conns, maxpkts))
+                "INVARIANTS ServeReturnsLast DeadlineArmed GaugesSane AtRestWhenReturned GaugeTracksLive AtRestWhenIdle\nCHECK_DEADLOCK FALSE\n" % (conns, maxpkts))
     return ctx.tlc_ok("MC_Lifecycle", cfg=cfg, env={"EMIT_FILE": emit}, workers=min(NCPU, 8), heap="8g")
+
+
+CONTROLS = {"addInGoroutine": "ServeReturnsLast", "noDeadline": "DeadlineArmed", "noWait": "ServeReturnsLast",
+            "closeErrNoWait": "ServeReturnsLast", "gaugeStoreRace": "AtRestWhenIdle"}
+
+
+def controls(ctx):
+    """every defect switch of Lifecycle.tla must break the invariant it is aimed at (the invariants are not vacuous)"""
+    done = {}
+    for d, inv in sorted(CONTROLS.items()):
+        cfg = "MCLC_%s.cfg" % d
+        with open(os.path.join(ctx.specdir(), cfg), "w") as f:
+            f.write("SPECIFICATION Spec\nCONSTANTS\n  Conns = {1, 2}\n  MaxPkts = 1\n  Defects = {\"%s\"}\n  Record = FALSE\nINVARIANT %s\nCHECK_DEADLOCK FALSE\n" % (d, inv))
+        r = ctx.tlc("MC_Lifecycle", cfg=cfg, workers=4, heap="4g", timeout=600)
+        if ("Invariant %s is violated" % inv) not in r["out"]:
+            raise Inconclusive("Lifecycle.tla: defect %s does not break %s - the invariant would be vacuous:\n%s" % (d, inv, tail(r["out"], 20)))
+        done[d] = inv
+    return done
+
+
+def burst_schedules(rng, n, rounds, width):
+    """bursts of connections that all finish at the same moment, with a reading of the gauges once all goroutines are gone"""
+    out = []
+    for i in range(n):
+        steps = []
+        for _ in range(rounds):
+            k = rng.randint(2, width)
+            steps.append(["offern", k])
+            if rng.random() < 0.5:
+                steps.append(["releaseall", 0])        # all refused at admission at once
+            else:
+                steps += [["admitall", 0], ["eofall", 0]]  # all admitted, then all peers hang up at once
+            steps.append(["rest", 0])
+        out.append({"id": "burst%d" % i, "steps": steps, "refuse": []})
+    return out
 
 
 def rand_schedule(rng, idx):
@@ -102,6 +137,8 @@ def collect(ctx, prop):
     S = [{"id": "mc%d" % i, "steps": [[OPMAP.get(a[0], a[0]), a[1]] for a in s], "refuse": []} for i, s in enumerate(scheds)]
     S += drip_schedules()
     S += [rand_schedule(rng, i) for i in range(nrand)]
+    S += burst_schedules(rng, 200 if quick else 2000, 100, 16)
+    ctl = controls(ctx)
     sf = ctx.path("sched.ndjson")
     with open(sf, "w") as f:
         for s in S:
@@ -136,7 +173,7 @@ def collect(ctx, prop):
     cov = {"states": ctx.tlc_distinct, "transitions": ctx.tlc_states, "traces_validated_against_impl": len(S),
            "evaluations": len(S), "distinct_nontrivial": len({json.dumps(s["steps"]) for s in S if len(s["steps"]) >= 3}),
            "rule": "one evaluation = one schedule of environment actions (offer, goroutine-start gate, packet, partial octet, EOF, handler gate, logical-clock tick, cancel, accept timeout, accept fault) replayed on the real Serve; TLC-emitted schedules (%d of %d) + pacing/fault schedules + seeded random ones; non-trivial = distinct schedule with >= 3 actions" % (len(scheds), total),
-           "samples": [S[0], S[-1]], "oracle_counts": cnt, "events": st["events"], "liveness_states": r1["distinct"],
+           "samples": [S[0], S[-1]], "oracle_counts": cnt, "events": st["events"], "liveness_states": r1["distinct"], "spec_controls": ctl,
            "other_property_observations": sorted(others), "exhaustive": False}
     return cov, ["deadlines are simulated with a logical clock (no real waiting); the literal 10 s / 15 s are only required to be finite and armed at the right points",
                  "goroutine scheduling between two environment actions is left to the Go runtime (the harness waits until every server goroutine is parked)",
